@@ -296,6 +296,20 @@ Proof.
       * right. exists q0. split; [right; right; exact Hq|exact He].
 Qed.
 
+Lemma cupsert_nodup b c upd dflt : NoDup (map fst b) -> NoDup (map fst (cupsert b c upd dflt)).
+Proof.
+  induction b as [|[c1 q1] b IH]; intros Hnd.
+  - unfold cupsert; cbn [cmap_get cmap_set map fst]. constructor; [intros []|constructor].
+  - rewrite cupsert_cons. cbn [map fst] in Hnd. inversion Hnd as [|x l Hnin Hnd']; subst.
+    destruct (commit_eqb c1 c) eqn:E.
+    + apply commit_eqb_spec in E; subst c1. cbn [map fst]. constructor; assumption.
+    + cbn [map fst]. constructor; [|apply IH; exact Hnd'].
+      intros Hin. apply in_map_iff in Hin. destruct Hin as ([c2 q2] & Heq & Hin). cbn [fst] in Heq. subst c2.
+      apply cupsert_in in Hin. destruct Hin as [Hin|(q0 & _ & Heq)].
+      * apply Hnin. apply in_map_iff. exists (c1, q2). split; [reflexivity|exact Hin].
+      * inversion Heq; subst. rewrite commit_eqb_refl in E. discriminate.
+Qed.
+
 Section CUpsert.
   Variables (upd : cqc -> cqc) (i0 : nat) (dflt : cqc) (c : commit) (n : nat).
   Hypothesis Hupd : forall q, qsigners (upd q) = bv_set (qsigners q) i0.
@@ -499,7 +513,8 @@ Proof. apply zmap_get_in. rewrite zmap_get_set, Z.eqb_refl. reflexivity. Qed.
 Definition bucket_ok (g ep : Z) (C : committee) (views : list (Z * Z)) (e : Z * list (commit * cqc)) : Prop :=
   (forall c q, In (c, q) (snd e) ->
      qmsg q = c /\ cqc_inv C q /\ view_ok g ep (cview c) /\ vnum (cview c) = fst e) /\
-  fam_ok C views (fst e) (cbms (snd e)).
+  fam_ok C views (fst e) (cbms (snd e)) /\
+  NoDup (map fst (snd e)).
 
 Definition cinv (g ep : Z) (C : committee) (views : list (Z * Z)) (qcs : list (Z * list (commit * cqc))) : Prop :=
   views_ok C views /\ zsorted qcs /\ covered views qcs /\ forall e, In e qcs -> bucket_ok g ep C views e.
@@ -511,7 +526,7 @@ Lemma bucket_of_ok g ep C views qcs v : cinv g ep C views qcs -> bucket_ok g ep 
 Proof.
   intros (_ & _ & _ & H). unfold bucket_of. destruct (zmap_get qcs v) as [b|] eqn:E.
   - apply zmap_get_in in E. exact (H _ E).
-  - split; [intros c q []|apply fam_ok_nil].
+  - split; [intros c q []|split; [apply fam_ok_nil|constructor]].
 Qed.
 
 Definition q0_of (C : committee) (bucket : list (commit * cqc)) (c : commit) : cqc :=
@@ -523,7 +538,7 @@ Lemma entry_facts g ep C views v bucket c key i0 : bucket_ok g ep C views (v, bu
   forall q0, q0 = cqc_new c C \/ In (c, q0) bucket ->
   qmsg q0 = c /\ cqc_inv C q0 /\ nth_error (qsigners q0) i0 = Some false.
 Proof.
-  intros [Hm Hf] Hk Hfr q0 Hq0. cbn [fst snd] in *.
+  intros [Hm [Hf _]] Hk Hfr q0 Hq0. cbn [fst snd] in *.
   pose proof (cindex_lt _ _ _ Hk) as Hlt.
   destruct Hq0 as [->|Hin].
   - split; [reflexivity|]. split; [apply cqc_new_inv|].
@@ -560,7 +575,7 @@ Proof.
   assert (Hv' : views_ok C views') by (eapply views_ok_set; eassumption).
   assert (Hfull : forall e, In e (zmap_set qcs v b') -> bucket_ok g ep C views' e).
   { intros e He. apply zmap_set_in in He. destruct He as [->|He].
-    - destruct Hb as [Hm Hf]. cbn [fst snd] in *. split; cbn [fst snd].
+    - destruct Hb as [Hm [Hf Hnd]]. cbn [fst snd] in *. split; [|split]; cbn [fst snd]; [| |apply cupsert_nodup; exact Hnd].
       + intros c1 q1 Hin. apply cupsert_in in Hin. destruct Hin as [Hin|(q0 & Hq0 & Heq)].
         * exact (Hm _ _ Hin).
         * inversion Heq; subst c1 q1. destruct (Hent q0 Hq0) as (Hq0m & Hq0i & Hq0n).
@@ -575,7 +590,7 @@ Proof.
           -- inversion Heq; subst. right. exists (qsigners q0). split; [|apply Hu1].
              destruct Hq0 as [->|Hq0]; [left; reflexivity|right].
              unfold cbms. apply in_map_iff. exists (c, q0). auto.
-    - destruct (Hall e He) as [Hm Hf]. split; [exact Hm|].
+    - destruct (Hall e He) as [Hm [Hf Hnd]]. split; [exact Hm|]. split; [|exact Hnd].
       eapply fam_ok_mono; [apply views_le_set; exact Hfr|exact Hf]. }
   assert (Hs' : zsorted qcs') by (apply zsorted_filter, zmap_set_sorted; exact Hs).
   assert (Hc' : covered views' qcs') by apply retain_covered.
@@ -1221,7 +1236,7 @@ Proof.
   pose proof (keys_bound_of _ _ _ Bcv Hcs Hcc) as Bck. pose proof (keys_bound_of _ _ _ Btv Hts Htc) as Btk.
   assert (Bce : forall v b, In (v, b) (r_commit_qcs s) ->
             fam_bounded (length (cC cfg)) (cbms b) /\ (length b <= length (cC cfg))%nat).
-  { intros v b Hin. destruct (Hce _ Hin) as [_ Hf]. cbn [fst snd] in Hf.
+  { intros v b Hin. destruct (Hce _ Hin) as [_ [Hf _]]. cbn [fst snd] in Hf.
     pose proof (fam_bounded_of _ _ _ _ Hf) as Hb. split; [exact Hb|].
     destruct Hb as (_ & _ & Hl). unfold cbms in Hl. rewrite map_length in Hl. exact Hl. }
   assert (Bte : forall v t, In (v, t) (r_timeout_qcs s) ->
@@ -1280,6 +1295,10 @@ Proof.
   intros [(_ & _ & _ & Hall) _] Hb Hq. apply zmap_get_in in Hb. apply cmap_get_in in Hq.
   destruct (Hall _ Hb) as [Hm _]. destruct (Hm c q Hq) as (H1 & H2 & H3 & H4). cbn [fst] in H4. tauto.
 Qed.
+
+Theorem cache_inv_bucket_nodup cfg s v b : cache_inv cfg s ->
+  zmap_get (r_commit_qcs s) v = Some b -> NoDup (map fst b).
+Proof. intros [(_ & _ & _ & Hall) _] Hb. apply zmap_get_in in Hb. apply (Hall _ Hb). Qed.
 
 Theorem cache_inv_timeout_qc cfg s v t : cache_inv cfg s ->
   zmap_get (r_timeout_qcs s) v = Some t ->
